@@ -385,6 +385,51 @@ def violation_search(ctx, pid, dv):
     return cls(dv, last or '', out)
 
 
+def resolve_explain_batch(ctx, pid, rqs, known):
+    """run the harness `explain` once over all requested history prefixes (each starts with `reset`)
+    and hand the failure reason of each prefix's last operation to the property's resolver"""
+    res = M.EXPLAIN_RESOLVERS.get(pid)
+    if not rqs:
+        return []
+    if not res:
+        return [(rq, ('violation', 'no resolver')) for rq in rqs]
+    d = os.path.join(ctx.build, 'replay')
+    os.makedirs(d, exist_ok=True)
+    tmp = os.path.join(d, 'explain-%s-%d.ops' % (pid, os.getpid()))
+    with open(tmp, 'w') as f:
+        for rq in rqs:
+            ops = rq['ops']
+            if not ops[0].startswith('reset'):
+                ops = ['reset 100'] + ops
+            f.write('\n'.join(ops) + '\n')
+    rc, out = run([ctx.harness_bin, 'explain', tmp], timeout=1800)
+    os.unlink(tmp)
+    if rc != 0:
+        return [(rq, ('violation', 'harness explain failed')) for rq in rqs]
+    chunks = []
+    cur = []
+    for ln in out.splitlines():
+        if ln.startswith('op 0 ') and ':: reset' in ln:
+            if cur:
+                chunks.append(cur)
+            cur = []
+        cur.append(ln)
+    if cur:
+        chunks.append(cur)
+    outl = []
+    for rq, ch in zip(rqs, chunks):
+        last = ''
+        for ln in ch:
+            if ln.startswith('op '):
+                last = ln
+        # the text of the last operation only (its header line and the failed-tx trace after it)
+        idx = max(i for i, ln in enumerate(ch) if ln.startswith('op '))
+        outl.append((rq, res(pid, last, '\n'.join(ch[idx:]), known)))
+    if len(chunks) != len(rqs):
+        outl.append((rqs[-1], ('violation', 'explain output could not be matched to the requests')))
+    return outl
+
+
 # ------------------------------------------------------------------ replay files
 def write_replay(ctx, pid, tag, payload):
     d = os.path.join(ctx.build, 'replay')
@@ -405,7 +450,7 @@ def load_known(ctx):
 
 def check_property(ctx, pid, tier, seed, replay=None):
     t0 = time.time()
-    spec = P.PROPS[pid]
+    spec = P.PROPS.get(pid) or P.PENDING[pid]
     known = [k for k in load_known(ctx).get('findings', []) if k.get('property') == pid]
     violations = []          # (replay_path, no_failing_input_found: bool, summary)
     known_hits = {}          # finding id -> description
@@ -423,7 +468,10 @@ def check_property(ctx, pid, tier, seed, replay=None):
     if violations:
         return finish(ctx, pid, tier, seed, t0, spec, None, cov, violations, known_hits)
 
-    au = audit(ctx, pid, spec)
+    if os.environ.get('VERIF_SKIP_AUDIT') == '1':
+        au = dict(obligations=0, discharged=0, problems=[], assumptions={}, theorems=[])
+    else:
+        au = audit(ctx, pid, spec)
     if au['problems']:
         rp = write_replay(ctx, pid, 'proof', {'kind': 'proof-obligation', 'problems': au['problems'],
                                               'theorems': au['theorems']})
@@ -500,13 +548,30 @@ def check_property(ctx, pid, tier, seed, replay=None):
         else:
             streams.append(('profile:' + prof, trs))
 
+    if spec.get('probe'):
+        # dry-run probes on clones of every visited world (harness `probe`), all shards in parallel
+        todo = [(opsf, robs) for sname, trs in streams for (opsf, robs, mobs) in trs if not os.path.exists(robs + '.probe')]
+        procs = []
+        for opsf, robs in todo:
+            pf = open(robs + '.probe.tmp', 'w')
+            procs.append((subprocess.Popen([ctx.harness_bin, 'probe', opsf], stdout=pf, stderr=subprocess.PIPE, text=True), pf, robs))
+        for pr, pf, robs in procs:
+            _, err = pr.communicate(timeout=7200)
+            pf.close()
+            if pr.returncode != 0:
+                rp = write_replay(ctx, pid, 'probe', {'kind': 'stream-failure', 'error': (err or '')[-400:]})
+                violations.append((rp, True, 'harness probe failed'))
+            else:
+                os.rename(robs + '.probe.tmp', robs + '.probe')
     for sname, trs in streams:
         all_mon = []
         all_rel = []
+        all_exp = []
         st = {'histories': 0, 'ops': 0, 'ok': 0, 'err': 0, 'first_diffs': 0, 'relevant_diffs': 0,
               'opkinds': {}, 'monitor_checks': 0}
         for (opsf, robs, mobs) in trs:
-            res = obsparse.compare_and_monitor(opsf, robs, mobs, pid, spec, M, known)
+            probes = (robs + '.probe') if (spec.get('probe') and os.path.exists(robs + '.probe')) else None
+            res = obsparse.compare_and_monitor(opsf, robs, mobs, pid, spec, M, known, probes=probes)
             for k in ('histories', 'ops', 'ok', 'err', 'first_diffs', 'relevant_diffs', 'monitor_checks'):
                 st[k] += res[k]
             for k, v in res['opkinds'].items():
@@ -517,6 +582,19 @@ def check_property(ctx, pid, tier, seed, replay=None):
                 cov['samples'].append({'stream': sname, 'history_prefix': res['samples'][0]})
             all_mon.extend(res['monitor_violations'])
             all_rel.extend(res['relevant'])
+            all_exp.extend(res.get('explain', []))
+        # monitor requests that need the implementation's failure reason (harness `explain`)
+        st['explained'] = 0
+        for rq, out in resolve_explain_batch(ctx, pid, all_exp[:2000], known):
+            st['explained'] += 1
+            if out is None:
+                continue
+            if out[0] == 'known':
+                known_hits[out[1]] = out[2]
+            elif out[0] == 'violation':
+                all_mon.append(dict(op_index=rq['op_index'], op=rq['op'], ops=rq['ops'],
+                                    message=rq['message'] + ' :: ' + out[1]))
+        st['explain_requests'] = len(all_exp)
         if all_mon:
             mv = all_mon[0]
             rp = write_replay(ctx, pid, 'monitor', dict(mv, kind='monitor', stream=sname, seed=seed,
@@ -610,7 +688,7 @@ def replay(ctx, pid, path):
     mf = tmp + '.model'
     open(rf, 'w').write(rust)
     open(mf, 'w').write(model)
-    res = obsparse.compare_and_monitor(tmp, rf, mf, pid, P.PROPS[pid], M, [])
+    res = obsparse.compare_and_monitor(tmp, rf, mf, pid, P.PROPS.get(pid) or P.PENDING[pid], M, load_known(ctx).get('findings', []))
     for mv in res['monitor_violations']:
         ctx.say('MONITOR: ' + mv['message'])
     for dv in res['relevant']:
@@ -638,7 +716,7 @@ def main(root, argv):
                 bad = 1
         return bad
     pid = argv[0]
-    if pid not in P.PROPS:
+    if pid not in P.PROPS and pid not in P.PENDING:
         ctx.say('unknown property %s' % pid)
         return 2
     tier = os.environ.get('VERIF_TIER', 'quick')
